@@ -338,6 +338,9 @@ def shared_curve_run(seed=0, tier="quick", data=None):
     try:
         ops = ["#case rc"] + [f"rc.shared kind={k} loops={2 + (seed + i) % 4} rounds={rounds} cycles=12"
                               for i, k in enumerate(["function", "linear", "pid", "function"])]
+        # one sensor object under its monitor, control loops and scrapes while its input fails and recovers
+        ops += [f"rc.sensor kind={k} readers={2 + (seed + i) % 3} rounds={max(2, rounds // (6 if k == 'cmd' else 2))}"
+                for i, k in enumerate(["file", "hwmon", "cmd"])]
         open(os.path.join(wd, "ops"), "w").write("\n".join(ops) + "\n")
         env = dict(os.environ, GORACE="halt_on_error=0 history_size=2", GOMAXPROCS="8")
         env.pop("DISPLAY", None)
